@@ -38,7 +38,9 @@ McAdapt ==
     /\ Ev.tol >= 0 /\ Ev.tol <= 16384
     /\ Near(Ev.value, 1048576, Integral(FOf(Ev.f, 1), <<RZero, <<1, 4>>, ROne>>), Ev.tol)
     /\ l' = l + 1
-Next == VLat \/ McLat \/ Adapt \/ McAdapt
+\* the weight of every point, 1 / sum_j alpha_j p_j(x), at the precision of the numeric type: n + 2 roundings (measured against 113 bits)
+McWeightEps == /\ l <= TraceLen /\ Ev.e = "McWeightEps" /\ Ev.points > 0 /\ Ev.maxDev <= Ev.n + 4 /\ l' = l + 1
+Next == VLat \/ McLat \/ Adapt \/ McAdapt \/ McWeightEps
 Spec == Init /\ [][Next]_vars
 TraceAccepted == TraceAcceptedBy(TraceLen)
 =============================================================================
